@@ -72,4 +72,13 @@ theorem export_keeps_specials (d d' : Definition)
     d'.specials = d.specials ∧ d'.config = d.config ∧ d'.metadata = d.metadata :=
   Kitoken.Proofs.Codec.export_keeps_specials d d' pv pvs h
 
+/-- Every tokenizer that `Kitoken::new` builds can export its definition: no panic and no error, for every
+    iteration order (after the F27 repair, which rejects a NaN unigram score at construction; before it the export of
+    such a tokenizer panicked in `partial_cmp(..).unwrap()`). -/
+theorem export_ok_of_init (d : Definition) (tk : Tokenizer Score) (h : Tokenizer.new d = .ok tk)
+    (pv : List (Id × Bytes) → List (Id × Bytes))
+    (pvs : List ((Id × Bytes) × UInt32) → List ((Id × Bytes) × UInt32)) (hpvs : ∀ l, (pvs l).Perm l) :
+    ∃ d', exportDefinition d pv pvs = .ok d' :=
+  Kitoken.Proofs.Codec.export_ok_of_init d tk h pv pvs hpvs
+
 end Kitoken.C14
